@@ -267,14 +267,21 @@ PROPS["C18"]["functions"] += _DIST
 PROPS["C18"]["level_text"] = PROPS["C18"]["level_text"].replace("Bounded only:", "Also deductive: memory safety of the five dense distances and sparse_hellinger, and float-safety "
     "obligations for hellinger (every sqrt argument >= 0, every divisor != 0 over the reals, which is what the clamp guarantees). Bounded only:")
 PROPS["C17"]["functions"] = _KL
-PROPS["C17"]["level_text"] = ("Deductive (unbounded): the three column_kl kernels are memory safe under `row indices sorted, duplicate-free and < len(baseline)`; in the exact-prior "
+PROPS["C17"]["level_text"] = ("Deductive (unbounded): the exact-prior kernel column_kl_divergence_exact_prior returns exactly the Kullback-Leibler sum of the property statement - "
+    "sum over all rows r of P(r) * log(P(r) / baseline[r]) with P(r) = (dense count of r + prior_strength * baseline[r]) / (column total + prior_strength), stated over a ghost dense "
+    "column, so stored explicit zeros and absent rows provably give the same weight (over the reals, log uninterpreted, for sorted duplicate-free row indices, non-negative counts and "
+    "baseline, prior_strength > 0); the three column_kl kernels are memory safe under `row indices sorted, duplicate-free and < len(baseline)`; in the exact-prior "
     "kernel the binary-search position of a row that is present is in range (this is where sortedness is load-bearing). " + PROPS["C17"]["level_text"])
 PROPS["C06"]["functions"] = [NG + "ngrams_of", CU + "sum_coo_entries"]
 PROPS["C06"]["level_text"] = ("Deductive (unbounded): ngrams_of('exact') returns exactly the runs of n consecutive elements in order (length max(0, L-n+1), element g equals "
     "sequence[g:g+n]), every slice in range for both behaviours; sum_coo_entries returns a non-empty list of strictly increasing (row, col) coordinates. " + PROPS["C06"]["level_text"].replace("Bounded only in this round:", "Bounded:"))
-PROPS["C07"]["functions"] = [LOT + "get_transport_plan"]
-PROPS["C07"]["level_text"] = ("Deductive (unbounded): get_transport_plan reads cell (i, j) of the plan from flow[n_arcs - (i*m + j) - 1], an in-range, injective index (relative to the "
-    "stated contract of pynndescent's 15-line arc_id for use_arc_mixing=False). " + PROPS["C07"]["level_text"].replace("Bounded only in this round:", "Bounded:"))
+_SITE_OT = "@site/pynndescent/optimal_transport.py::"
+PROPS["C07"]["functions"] = [LOT + "get_transport_plan", _SITE_OT + "arc_id", _SITE_OT + "initialize_cost", _SITE_OT + "initialize_supply"]
+PROPS["C07"]["structural"] = [st("linear_optimal_transport.py", "transport_plan", "posarg", callee="allocate_graph_structures", index=2, value="False", keyword="use_arc_mixing")]
+PROPS["C07"]["level_text"] = ("Deductive (unbounded): get_transport_plan reads cell (i, j) of the plan from flow[n_arcs - (i*m + j) - 1], an in-range, injective index; the "
+    "installed pynndescent source is under contract too (read from /venv's site-packages on every run): arc_id returns n_arcs - arc - 1 without arc mixing, initialize_cost writes "
+    "cost[i, j] to exactly the slot the plan cell (i, j) is read from, initialize_supply places the two marginals at the mirrored node slots; transport_plan switches arc mixing off "
+    "(structural). " + PROPS["C07"]["level_text"].replace("Bounded only in this round:", "Bounded:"))
 PROPS["C11"]["functions"] = [CU + "em_update_matrix"]
 PROPS["C11"]["level_text"] = ("Deductive (unbounded): em_update_matrix is memory safe for any CSR row and any windows/kernels of matching lengths (the searchsorted position is checked "
     "before use; a positive responsibility is only recorded for a context found in the row), writes only posterior_data and returns it. " + PROPS["C11"]["level_text"].replace("Bounded only in this round:", "Bounded:"))
@@ -401,7 +408,7 @@ _NOTES = {
     "C05": "The segment contracts are over the reals; the float32 rounding of a bound (seed S-C05-a) is visible to the bounded boundary enumeration only. The set/regex code around the "
            "segments is not under contract.",
     "C06": "ngrams_of (both behaviours), sum_coo_entries and build_skip_grams are under contract; the estimator glue (dictionary building, matrix assembly, `+`) is structural/bounded.",
-    "C07": "The optimiser is external (pynndescent.optimal_transport); only the read-out of the plan from the flow vector is proved, relative to the stated arc_id contract. "
+    "C07": "The optimiser is external (pynndescent.optimal_transport): its network simplex (optimality, feasibility) and allocate_graph_structures are trusted / bounded; the read-out of the plan from the flow vector, and arc_id / initialize_cost / initialize_supply of the installed pynndescent source (read from site-packages on every run), are proved. "
            "Feasibility and optimality are bounded (HiGHS reference).",
     "C11": "em_update_matrix and the four EM iteration kernels around it are under contract (memory safety, support, frame, every call-site precondition); the "
            "normalisation, the epsilon thresholding and the values of the refined matrix are bounded.",
@@ -411,7 +418,7 @@ _NOTES = {
     "C14": "Deductive parts: kernels zero at the mask, radius tables 0 at a nullified mask, window positions, the re-indexing segment. The end-to-end matrix is bounded.",
     "C16": "The LZ parse carries ghost accounting of phrase counts and the cap invariant; counts_to_csr_data keeps the column dictionary numbered 0..size-1 and every emitted "
            "column inside it. The hashed variant and the estimator glue are bounded.",
-    "C17": "The three column_kl kernels are under contract for memory safety only; KL values (Gibbs' inequality, floats) are bounded: no SMT contract decides them.",
+    "C17": "The exact-prior kernel has a functional contract (result == the KL sum of the definition over a ghost dense column, over the reals, log uninterpreted); the approximate and supervised kernels are under contract for memory safety only; non-negativity (Gibbs' inequality), float rounding, the CSC conversion and the transformer scaling are bounded: no SMT contract decides them.",
     "C20": "pandas interval construction is library code; expand_boundaries / add_outier_bins / find_bin_boundaries are under contract over (left, right) records. "
            "Row totals of the histogram and the KDE clause are bounded.",
 }
